@@ -68,6 +68,8 @@ ASSUMPTIONS = [
     "timer is mostly emulated by calling BufferedWriter.commit() from a second thread (what threading.Timer does), plus a few "
     "real timers with a sub-second period",
     "an empty posting value (fields whose format stores nothing per posting) is the same as no value (None vs b'')",
+    "an exception that ends a flush-timer thread is reported as a failure (monitor c18.thread): a flush that raises did not "
+    "save what it was meant to save",
     "a sub-writer process that dies is observed through its traceback on stderr and counted; only a difference in the resulting "
     "index is a violation",
 ]
@@ -329,12 +331,20 @@ def reraise_thread_error(th):
             raise e
 
 
-def reraise_timer_error():
-    """An exception that ended a BufferedWriter flush-timer thread."""
-    for i, (t, e) in enumerate(_thread_errors):
-        if isinstance(t, threading.Timer):
-            del _thread_errors[i]
+def report_stray_thread_errors(ctx, idx):
+    """Exceptions that ended a BufferedWriter flush-timer thread (or any other thread nobody joined). The timer may belong to
+    a BufferedWriter of an earlier case of this worker, so the witness only names the exception."""
+    import traceback
+    from vf import core
+    while _thread_errors:
+        t, e = _thread_errors.pop()
+        site, in_harness = core.whoosh_site(e)
+        if in_harness:
             raise e
+        kind = "flush-timer" if isinstance(t, threading.Timer) else type(t).__name__
+        ctx.fail("c18.thread", "exc:%s:%s@%s" % (kind, type(e).__name__, site),
+                 {"thread": repr(t), "noticed_after_case": idx},
+                 "".join(traceback.format_exception(type(e), e, e.__traceback__))[-2500:])
 
 
 def safe_close(bw):
@@ -463,7 +473,6 @@ def run_history_inproc(st, h, cfg, rng, info):
         if bw is not None:
             bw.close()
             bw = None
-            reraise_timer_error()
         if toram_at == len(txs):
             st = copy_to_ram(st)
     finally:
@@ -1200,8 +1209,6 @@ def case_bw_timer(ctx, idx, rng):
                 ok, _ = ctx.guard("c18.bw.exec", w, bw.close)
                 closed = True
                 if ok:
-                    ok, _ = ctx.guard("c18.bw.timer", w, reraise_timer_error)
-                if ok:
                     bw_after_close(ctx, w, st, cfg, live, opts, "timer")
                     time.sleep(0.01)
                     if bw.timer.is_alive() and not bw.timer.finished.is_set():
@@ -1396,3 +1403,4 @@ def run(ctx):
         else:
             ctx.count("c18.cases.bw_timer")
             case_bw_timer(ctx, idx, rng)
+        report_stray_thread_errors(ctx, idx)
